@@ -1,17 +1,483 @@
-//! module `tri` — streams `tri.*` (not built yet).
+//! module `tri` (serves C19, triangle part, and C05, triangle part) — the Triangle primitive.
+//!
+//! Streams (every result line is compared with the Lean model `EG.Model.Triangle`):
+//!   tri.points x1 y1 x2 y2 x3 y3
+//!       -> bb=<bounding_box()> pts=<points() in iteration order> in=<contains() bitmap, row-major,
+//!          over the bounding box grown by 2 px on every side>
+//!          (`pts`: format of `m_line::pts_digest`, full list up to 64 points, digest beyond;
+//!           `in`: the bits up to 256 cells, beyond `n=<cells>,ones=<count>,h=<hash>` with
+//!           h_0 = 0, h_{i+1} = (h_i * 1000003 + bit_i + 1) mod 2^64)
+//!   tri.outline x1 y1 x2 y2 x3 y3
+//!       -> px=<points of into_styled(PrimitiveStyle::with_stroke(c, 1)).pixels() in iteration order,
+//!          pts_digest format> n=<number of distinct pixels>
+//!   tri.pair ax ay bx by cx cy dx dy      (triangles (a,b,c) and (a,c,d): they share the edge a-c)
+//!       -> p1=<points() of (a,b,c)> p2=<points() of (a,c,d)>   (pts_digest format)
+//!
+//! Oracle. Exact integer geometry (i64), written independently of the library; `cross(a,b,p) =
+//! (b-a) x (p-a)`. Lean statements mirrored (all theorems of lean/EG/Props/C19/Triangle.lean and
+//! lean/EG/Props/C05/Triangle.lean): C19 `interior_covered` (with `StrictlyInside`),
+//! `covered_within_one_pixel` (with `ClosedInside`, `NearSegment`), `triangle_points_order_independent`,
+//! `triangle_points_row_major`, `shared_edge_pixels_in_both`, `mesh_gap_free` (with `OnOpenSegment`),
+//! `outline_is_edge_lines`; C05 `triangle_points_eq_filter_contains`, `triangle_points_in_bbox`,
+//! `triangle_contains_false_outside_bbox`.
+//!   C19:tri-interior      every integer point strictly inside the mathematical triangle (all three
+//!                         cross products non-zero and of the same sign) is in points()
+//!   C19:tri-outside-1px   every point of points() is inside the closed triangle (cross products all
+//!                         >= 0 or all <= 0, non-zero area) or at EUCLIDEAN distance <= 1 from one of
+//!                         the three edge SEGMENTS (exactly: with t = (p-a).(b-a), L = |b-a|^2:
+//!                         t <= 0: |p-a|^2 <= 1; t >= L: |p-b|^2 <= 1; else cross^2 <= L). Metric
+//!                         fixed as in the design-phase probes; the Bresenham edges stay within
+//!                         half a pixel, so the unchanged tree passes with margin.
+//!   C19:tri-duplicate     points() yields no point twice
+//!   C19:tri-order         all 6 vertex orders give the same point SET (the sequence is compared
+//!                         too and counted as `tri:order-sequence-differs` if it ever differs)
+//!   C19:tri-shared-edge   pair: the thin line between the shared vertices (real `Line::points()`,
+//!                         itself covered by C17), in one of its two orientations, lies in BOTH
+//!                         point sets: both triangles paint the same pixel chain along the edge
+//!   C19:tri-mesh-gap      pair with b and d strictly on opposite sides of a-c: every integer point
+//!                         of the quadrilateral's interior (strictly inside one of the triangles, or
+//!                         on the open segment a-c) is in the union of the two point sets
+//!   C19:tri-outline       the pixel set of the 1-px outline equals the union of the three edge
+//!                         lines' `Line::points()`, each edge taken in one of its two orientations
+//!                         (Bresenham ties round differently in the two directions; the counters
+//!                         `tri:outline-as-given` / `tri:outline-reversed` say which cyclic direction
+//!                         matched); no pixel twice is NOT claimed (edges share their end points)
+//!   C05:tri-points-vs-contains   non-zero area: points() == the points of the grown box, in
+//!                         row-major order, for which contains() is true (hence sorted, no
+//!                         duplicate, nothing missing, nothing extra)
+//!   C05:tri-outside-bbox  every point of points() is inside bounding_box()
+//!   C05:tri-contains-outside-bbox  contains() is false on the 2-px margin around the box
+//!   (zero area: the property claims nothing; `tri:zero-area` counts them, `contains` is false there)
 use crate::common::*;
+use crate::m_line::pts_digest;
+use embedded_graphics::{
+    pixelcolor::BinaryColor,
+    prelude::*,
+    primitives::{ContainsPoint, Line, PrimitiveStyle, Rectangle, Triangle},
+};
+use std::collections::HashSet;
 
 pub struct M;
+
+type P = (i64, i64);
+
+fn cross(a: P, b: P, p: P) -> i64 {
+    (b.0 - a.0) * (p.1 - a.1) - (b.1 - a.1) * (p.0 - a.0)
+}
+fn strictly_inside(v: &[P; 3], p: P) -> bool {
+    let d = [cross(v[0], v[1], p), cross(v[1], v[2], p), cross(v[2], v[0], p)];
+    d.iter().all(|x| *x > 0) || d.iter().all(|x| *x < 0)
+}
+fn closed_inside(v: &[P; 3], p: P) -> bool {
+    if cross(v[0], v[1], v[2]) == 0 {
+        return false; // a degenerate triangle is the union of its edges: see `near_segment`
+    }
+    let d = [cross(v[0], v[1], p), cross(v[1], v[2], p), cross(v[2], v[0], p)];
+    d.iter().all(|x| *x >= 0) || d.iter().all(|x| *x <= 0)
+}
+/// Euclidean distance from `p` to the segment `a b` is at most 1 (exact).
+fn near_segment(a: P, b: P, p: P) -> bool {
+    let (ex, ey) = (b.0 - a.0, b.1 - a.1);
+    let (px, py) = (p.0 - a.0, p.1 - a.1);
+    let l = ex * ex + ey * ey;
+    let t = px * ex + py * ey;
+    if t <= 0 {
+        px * px + py * py <= 1
+    } else if t >= l {
+        let (qx, qy) = (p.0 - b.0, p.1 - b.1);
+        qx * qx + qy * qy <= 1
+    } else {
+        let c = cross(a, b, p);
+        c * c <= l
+    }
+}
+fn on_open_segment(a: P, b: P, p: P) -> bool {
+    if cross(a, b, p) != 0 {
+        return false;
+    }
+    let t = (p.0 - a.0) * (b.0 - a.0) + (p.1 - a.1) * (b.1 - a.1);
+    let l = (b.0 - a.0) * (b.0 - a.0) + (b.1 - a.1) * (b.1 - a.1);
+    0 < t && t < l
+}
+
+fn pt(p: P) -> Point {
+    Point::new(p.0 as i32, p.1 as i32)
+}
+fn tri_of(v: &[P; 3]) -> Triangle {
+    Triangle::new(pt(v[0]), pt(v[1]), pt(v[2]))
+}
+const CAP: usize = 2_000_000;
+fn points_of(v: &[P; 3]) -> Vec<Point> {
+    tri_of(v).points().take(CAP).collect()
+}
+fn set_of(pts: &[Point]) -> HashSet<(i32, i32)> {
+    pts.iter().map(|p| (p.x, p.y)).collect()
+}
+fn sorted_set(s: &HashSet<(i32, i32)>) -> Vec<(i32, i32)> {
+    let mut v: Vec<(i32, i32)> = s.iter().copied().collect();
+    v.sort_by_key(|(x, y)| (*y, *x));
+    v
+}
+
+fn bits_digest(bits: &[bool]) -> String {
+    if bits.len() <= 256 {
+        return bits.iter().map(|b| if *b { '1' } else { '0' }).collect();
+    }
+    let mut h: u64 = 0;
+    let mut ones = 0u64;
+    for b in bits {
+        h = h.wrapping_mul(1_000_003).wrapping_add(*b as u64 + 1);
+        ones += *b as u64;
+    }
+    format!("n={},ones={},h={}", bits.len(), ones, h)
+}
+
+fn read_pts<const N: usize>(t: &mut Toks) -> [P; N] {
+    let mut v = [(0i64, 0i64); N];
+    for k in 0..N {
+        v[k] = (t.i64(), t.i64());
+    }
+    v
+}
+
+const ORDERS: [[usize; 3]; 6] = [[0, 1, 2], [0, 2, 1], [1, 0, 2], [1, 2, 0], [2, 0, 1], [2, 1, 0]];
+
+fn classify(ctx: &mut Ctx, v: &[P; 3]) {
+    let a = cross(v[0], v[1], v[2]);
+    ctx.count(if a == 0 {
+        "tri:zero-area"
+    } else if a > 0 {
+        "tri:orientation-positive"
+    } else {
+        "tri:orientation-negative"
+    });
+    if v[0] == v[1] || v[1] == v[2] || v[0] == v[2] {
+        ctx.count("tri:coincident-vertices");
+    }
+    if a != 0 && (v[0].1 == v[1].1 || v[1].1 == v[2].1 || v[0].1 == v[2].1) {
+        ctx.count("tri:flat-side");
+    }
+    let ext = v.iter().map(|p| p.0.abs().max(p.1.abs())).max().unwrap();
+    ctx.count(if ext <= 3 {
+        "tri:extent<=3"
+    } else if ext <= 12 {
+        "tri:extent<=12"
+    } else {
+        "tri:extent>12"
+    });
+}
+
+fn exec_points(op: &str, t: &mut Toks, ctx: &mut Ctx) -> String {
+    let v: [P; 3] = read_pts(t);
+    classify(ctx, &v);
+    let tri = tri_of(&v);
+    let area = cross(v[0], v[1], v[2]);
+    if area != 0 {
+        ctx.nontrivial(op);
+    }
+    let bb = tri.bounding_box();
+    let pts = points_of(&v);
+    let set = set_of(&pts);
+    // contains() over the box grown by 2 px
+    let grown = Rectangle::new(bb.top_left - Point::new(2, 2), bb.size + Size::new(4, 4));
+    let mut bits = Vec::with_capacity((grown.size.width * grown.size.height) as usize);
+    let mut accepted: Vec<Point> = Vec::new();
+    let mut margin_hit: Option<Point> = None;
+    for p in grown.points() {
+        let c = tri.contains(p);
+        bits.push(c);
+        if c {
+            accepted.push(p);
+            if !bb.contains(p) && margin_hit.is_none() {
+                margin_hit = Some(p);
+            }
+        }
+    }
+
+    // ---- C19 ----
+    if ctx.pid == "C19" {
+        let mut miss: Option<Point> = None;
+        for p in bb.points() {
+            if strictly_inside(&v, (p.x as i64, p.y as i64)) && !set.contains(&(p.x, p.y)) {
+                miss = Some(p);
+                break;
+            }
+        }
+        ctx.expect(miss.is_none(), "C19:tri-interior", || format!("{:?}: interior point {:?} not in points()", v, miss));
+        let far = pts.iter().find(|p| {
+            let q = (p.x as i64, p.y as i64);
+            !(closed_inside(&v, q) || near_segment(v[0], v[1], q) || near_segment(v[1], v[2], q) || near_segment(v[2], v[0], q))
+        });
+        ctx.expect(far.is_none(), "C19:tri-outside-1px", || {
+            format!("{:?}: {:?} is outside and more than one pixel from every edge", v, far)
+        });
+        ctx.expect(set.len() == pts.len(), "C19:tri-duplicate", || {
+            format!("{:?}: {} points, {} distinct", v, pts.len(), set.len())
+        });
+        let mut set_diff: Option<[usize; 3]> = None;
+        for o in ORDERS.iter().skip(1) {
+            let w = [v[o[0]], v[o[1]], v[o[2]]];
+            let q = points_of(&w);
+            if q != pts {
+                ctx.count("tri:order-sequence-differs");
+                if set_of(&q) != set && set_diff.is_none() {
+                    set_diff = Some(*o);
+                }
+            }
+        }
+        ctx.expect(set_diff.is_none(), "C19:tri-order", || {
+            format!("{:?}: vertex order {:?} gives a different point set", v, set_diff)
+        });
+    }
+
+    // ---- C05 ----
+    let outside = pts.iter().find(|p| !bb.contains(**p));
+    ctx.expect(outside.is_none(), "C05:tri-outside-bbox", || format!("{:?}: {:?} outside {:?}", v, outside, bb));
+    ctx.expect(margin_hit.is_none(), "C05:tri-contains-outside-bbox", || {
+        format!("{:?}: contains({:?}) is true outside {:?}", v, margin_hit, bb)
+    });
+    if area != 0 {
+        ctx.expect(pts == accepted, "C05:tri-points-vs-contains", || {
+            let acc = set_of(&accepted);
+            let extra: Vec<_> = sorted_set(&set).into_iter().filter(|p| !acc.contains(p)).take(3).collect();
+            let missing: Vec<_> = sorted_set(&acc).into_iter().filter(|p| !set.contains(p)).take(3).collect();
+            format!(
+                "{:?}: points() has {} points, contains() accepts {}; in points() only {:?}; accepted only {:?}",
+                v,
+                pts.len(),
+                accepted.len(),
+                extra,
+                missing
+            )
+        });
+    } else if !accepted.is_empty() {
+        ctx.count("tri:zero-area-contains-true");
+    }
+    format!("bb={} pts={} in={}", fmt_rect(&bb), pts_digest(&pts), bits_digest(&bits))
+}
+
+fn exec_outline(op: &str, t: &mut Toks, ctx: &mut Ctx) -> String {
+    let v: [P; 3] = read_pts(t);
+    classify(ctx, &v);
+    if cross(v[0], v[1], v[2]) != 0 {
+        ctx.nontrivial(op);
+    }
+    let px: Vec<Point> = tri_of(&v)
+        .into_styled(PrimitiveStyle::with_stroke(BinaryColor::On, 1))
+        .pixels()
+        .take(CAP)
+        .map(|p| p.0)
+        .collect();
+    let set = set_of(&px);
+    let line = |a: P, b: P| -> Vec<Point> { Line::new(pt(a), pt(b)).points().collect() };
+    let edges = [(v[0], v[1]), (v[1], v[2]), (v[2], v[0])];
+    let mut matched: Option<u32> = None;
+    for mask in 0..8u32 {
+        let mut u: HashSet<(i32, i32)> = HashSet::new();
+        for (k, (a, b)) in edges.iter().enumerate() {
+            let l = if mask & (1 << k) == 0 { line(*a, *b) } else { line(*b, *a) };
+            u.extend(l.iter().map(|p| (p.x, p.y)));
+        }
+        if u == set {
+            matched = Some(mask);
+            break;
+        }
+    }
+    match matched {
+        Some(0) => ctx.count("tri:outline-as-given"),
+        Some(7) => ctx.count("tri:outline-reversed"),
+        Some(_) => ctx.count("tri:outline-mixed-orientation"),
+        None => {}
+    }
+    ctx.expect(matched.is_some(), "C19:tri-outline", || {
+        format!("{:?}: the {} outline pixels are not the union of the three edge lines in any orientation", v, set.len())
+    });
+    format!("px={} n={}", pts_digest(&px), set.len())
+}
+
+fn exec_pair(op: &str, t: &mut Toks, ctx: &mut Ctx) -> String {
+    let q: [P; 4] = read_pts(t);
+    let (a, b, c, d) = (q[0], q[1], q[2], q[3]);
+    let t1 = [a, b, c];
+    let t2 = [a, c, d];
+    let p1 = points_of(&t1);
+    let p2 = points_of(&t2);
+    let s1 = set_of(&p1);
+    let s2 = set_of(&p2);
+    let (sb, sd) = (cross(a, c, b), cross(a, c, d));
+    let opposite = (sb > 0 && sd < 0) || (sb < 0 && sd > 0);
+    ctx.count(if a == c {
+        "tri:pair-degenerate-edge"
+    } else if opposite {
+        "tri:pair-opposite-sides"
+    } else if sb == 0 || sd == 0 {
+        "tri:pair-one-degenerate"
+    } else {
+        "tri:pair-same-side"
+    });
+    if opposite {
+        ctx.nontrivial(op);
+    }
+    // same pixel chain along the shared edge
+    let fwd: Vec<Point> = Line::new(pt(a), pt(c)).points().collect();
+    let bwd: Vec<Point> = Line::new(pt(c), pt(a)).points().collect();
+    let both = |l: &Vec<Point>| l.iter().all(|p| s1.contains(&(p.x, p.y)) && s2.contains(&(p.x, p.y)));
+    ctx.expect(both(&fwd) || both(&bwd), "C19:tri-shared-edge", || {
+        format!("{:?} | {:?}: neither Line(a,c) nor Line(c,a) lies in both point sets", t1, t2)
+    });
+    if opposite {
+        let xs = q.iter().map(|p| p.0);
+        let ys = q.iter().map(|p| p.1);
+        let (x0, x1) = (xs.clone().min().unwrap(), xs.max().unwrap());
+        let (y0, y1) = (ys.clone().min().unwrap(), ys.max().unwrap());
+        let mut gap: Option<P> = None;
+        'outer: for y in y0..=y1 {
+            for x in x0..=x1 {
+                let p = (x, y);
+                if (strictly_inside(&t1, p) || strictly_inside(&t2, p) || on_open_segment(a, c, p))
+                    && !(s1.contains(&(x as i32, y as i32)) || s2.contains(&(x as i32, y as i32)))
+                {
+                    gap = Some(p);
+                    break 'outer;
+                }
+            }
+        }
+        ctx.expect(gap.is_none(), "C19:tri-mesh-gap", || {
+            format!("{:?} | {:?}: {:?} is inside the quadrilateral but in neither triangle", t1, t2, gap)
+        });
+    }
+    format!("p1={} p2={}", pts_digest(&p1), pts_digest(&p2))
+}
+
+fn op3(stream: &str, v: &[P; 3]) -> String {
+    format!("{} {} {} {} {} {} {}", stream, v[0].0, v[0].1, v[1].0, v[1].1, v[2].0, v[2].1)
+}
+
+/// all ordered vertex triples on the `g x g` grid `(ox + sx*i, oy + sy*j)`
+fn grid_triples(g: i64, ox: i64, oy: i64, sx: i64, sy: i64, f: &mut dyn FnMut([P; 3])) {
+    let cells = g * g;
+    let at = |c: i64| (ox + sx * (c % g), oy + sy * (c / g));
+    for i in 0..cells {
+        for j in 0..cells {
+            for k in 0..cells {
+                f([at(i), at(j), at(k)]);
+            }
+        }
+    }
+}
+
+fn random_triangle(rng: &mut Rng) -> [P; 3] {
+    let sc = *rng.pick(&[4i64, 8, 16, 30, 60]);
+    let mut v = [(0i64, 0i64); 3];
+    for k in 0..3 {
+        v[k] = match rng.below(10) {
+            0 if k >= 1 => (v[k - 1].0 + rng.range(-sc, sc).clamp(-60 - v[k - 1].0, 60 - v[k - 1].0), v[k - 1].1), // flat side
+            1 if k >= 1 => (v[k - 1].0, rng.range(-sc, sc)),                                                          // vertical side
+            2 if k >= 2 => {
+                // colinear with the first two (when the extrapolation stays in range)
+                let (dx, dy) = (v[1].0 - v[0].0, v[1].1 - v[0].1);
+                let m = rng.range(-2, 3);
+                let p = (v[0].0 + m * dx, v[0].1 + m * dy);
+                if p.0.abs() <= 60 && p.1.abs() <= 60 {
+                    p
+                } else {
+                    (rng.range(-sc, sc), rng.range(-sc, sc))
+                }
+            }
+            _ => (rng.range(-sc, sc), rng.range(-sc, sc)),
+        };
+    }
+    v
+}
 
 impl Module for M {
     fn name(&self) -> &'static str {
         "tri"
     }
     fn rule(&self) -> &'static str {
-        "not built yet"
+        "tri.points / tri.outline: ALL ordered vertex triples (hence all 6 orders of every triple, colinear and coincident \
+         vertices included) on a 5x5 grid with unit spacing around the origin (-2..=2) and on a stretched 5x5 grid \
+         (x = -5 + 3i, y = -3 + 2j; outline: every 4th triple), thorough: 7x7 unit grid and 6x6 stretched grid; then seeded \
+         random triangles with coordinates within +-60 at scales 4/8/16/30/60 with forced flat, vertical and colinear cases \
+         (quick 2000 points / 600 outlines, thorough 50000 / 10000); every tri.points op also evaluates all 6 vertex orders. \
+         tri.pair: all quadrilaterals a,b,c,d on a 4x4 grid with a < c (index order), split along a-c, plus random ones \
+         (quick 600, thorough 20000). C05: the same tri.points ops (the same grids and the same number of random ones). \
+         Non-trivial: non-zero area (points, outline); b and d strictly on opposite sides of a-c (pair). distinct = distinct op text."
     }
-    fn generate(&self, _pid: &str, _tier: Tier, _rng: &mut Rng, _emit: &mut dyn FnMut(String)) {}
-    fn execute(&self, op: &str, _ctx: &mut Ctx) -> String {
-        panic!("unknown op {}", op)
+
+    fn generate(&self, pid: &str, tier: Tier, rng: &mut Rng, emit: &mut dyn FnMut(String)) {
+        let quick = tier == Tier::Quick;
+        if pid != "C19" && pid != "C05" {
+            return;
+        }
+        let c19 = pid == "C19";
+        // exhaustive grids
+        let g1 = if quick { 5 } else { 7 };
+        grid_triples(g1, -(g1 / 2), -(g1 / 2), 1, 1, &mut |v| emit(op3("tri.points", &v)));
+        let g2 = if quick { 5 } else { 6 };
+        grid_triples(g2, -5, -3, 3, 2, &mut |v| emit(op3("tri.points", &v)));
+        if c19 {
+            grid_triples(g1, -(g1 / 2), -(g1 / 2), 1, 1, &mut |v| emit(op3("tri.outline", &v)));
+            let mut n = 0u64;
+            grid_triples(g2, -5, -3, 3, 2, &mut |v| {
+                n += 1;
+                if n % 4 == 0 {
+                    emit(op3("tri.outline", &v));
+                }
+            });
+            // all quadrilaterals on a 4x4 grid, split along the diagonal a-c (a < c in index order;
+            // the other order is the same pair of triangles with permuted vertices)
+            let at = |c: i64| (-1 + (c % 4), -2 + (c / 4));
+            for a in 0..16 {
+                for c in a + 1..16 {
+                    for b in 0..16 {
+                        for d in 0..16 {
+                            let (pa, pb, pc, pd) = (at(a), at(b), at(c), at(d));
+                            emit(format!(
+                                "tri.pair {} {} {} {} {} {} {} {}",
+                                pa.0, pa.1, pb.0, pb.1, pc.0, pc.1, pd.0, pd.1
+                            ));
+                        }
+                    }
+                }
+            }
+        }
+        // random larger
+        let (np, no, nq) = if quick { (2000, 600, 600) } else { (50_000, 10_000, 20_000) };
+        for _ in 0..np {
+            let v = random_triangle(rng);
+            emit(op3("tri.points", &v));
+        }
+        if c19 {
+            for _ in 0..no {
+                let v = random_triangle(rng);
+                emit(op3("tri.outline", &v));
+            }
+            for _ in 0..nq {
+                let v = random_triangle(rng);
+                // the fourth vertex: mostly on the other side of v0-v2 (mirror of v1 plus noise)
+                let sc = *rng.pick(&[3i64, 8, 20]);
+                let d = if rng.chance(3, 4) {
+                    let m = (v[0].0 + v[2].0 - v[1].0, v[0].1 + v[2].1 - v[1].1);
+                    ((m.0 + rng.range(-sc, sc)).clamp(-120, 120), (m.1 + rng.range(-sc, sc)).clamp(-120, 120))
+                } else {
+                    (rng.range(-60, 60), rng.range(-60, 60))
+                };
+                emit(format!(
+                    "tri.pair {} {} {} {} {} {} {} {}",
+                    v[0].0, v[0].1, v[1].0, v[1].1, v[2].0, v[2].1, d.0, d.1
+                ));
+            }
+        }
+    }
+
+    fn execute(&self, op: &str, ctx: &mut Ctx) -> String {
+        let mut t = Toks::new(op);
+        match t.str() {
+            "tri.points" => exec_points(op, &mut t, ctx),
+            "tri.outline" => exec_outline(op, &mut t, ctx),
+            "tri.pair" => exec_pair(op, &mut t, ctx),
+            _ => panic!("unknown op {}", op),
+        }
     }
 }
